@@ -288,8 +288,8 @@ impl<S: ClientStream> AgentClient<S> {
         let _t = resp.read_string()?;
         let sig = resp.read_string()?;
 
-        let mut out = [0; 64];
-        out.copy_from_slice(sig);
+        // N.b. `copy_from_slice` panics if the lengths differ.
+        let out: [u8; 64] = sig.try_into().map_err(|_| Error::AgentProtocolError)?;
 
         Ok(out)
     }
